@@ -489,11 +489,37 @@ def r11b(ctx):
         return
     arms = variant_arms(cp, lib, 1)
     covered = set()
+    from ..callgraph import CallGraph
+    cg = CallGraph([lib])
+    def arm_reaches(tgt, rx):
+        """a call matching rx in the arm, or in a check_ helper of FsCommand that the arm calls (transitively)"""
+        for c in cp.calls():
+            if not (c.bb == tgt or c.bb in cp.reachable(tgt)):
+                continue
+            if c.matches(rx):
+                return True
+            if c.matches(r'^dedupe::FsCommand::check_\w+$') and c.path in cg.bodies:
+                if any(cg.bodies[k].calls(rx) for k in cg.reachable([c.path])):
+                    return True
+        return False
+    unlink_tested, all_arms = set(), set()
     if arms:
         sbb, am, other = arms[0]
         for v, tgt in am.items():
-            if tgt != other and any(c.bb == tgt or c.bb in cp.reachable(tgt) for c in cp.calls(r'^dedupe::FsCommand::check_\w+$|MetadataExt.*::nlink$|pathconf')):
+            all_arms.add(v)
+            # what makes link(2) itself refuse: the link count of the retained file, the mount, the owner
+            if tgt != other and arm_reaches(tgt, r'MetadataExt.*::nlink$|pathconf|Metadata::nlink$|MetadataExt.*::uid$|get_mount_point$'):
                 covered.add(v)
+            if tgt != other and arm_reaches(tgt, r'nix::unistd::(access|faccessat|eaccess)$|^libc::(access|faccessat|euidaccess)$'):
+                unlink_tested.add(v)
+    # every operation unlinks or renames away the file it drops: that takes write permission to ITS directory, which can be seen beforehand
+    adt = lib.adts.get('dedupe::FsCommand')
+    variants = {v['name'] for v in adt['variants']} if adt else all_arms
+    ctx.check(bool(variants) and unlink_tested >= variants, rule, cp.path + '|directory-of-the-dropped-file-writable', cp.where(),
+              'check_preconditions asks for every command whether the directory of the file it removes / replaces / moves can be modified (%s)' % ', '.join(sorted(unlink_tested)),
+              'check_preconditions does not look at the directory that holds the duplicate (missing for: %s): for a file in a directory without write permission (mode 555, a foreign directory, a '
+              'read-only mount) --dry-run prints the command and counts the file for every operation, the real run fails with "Permission denied" - and `move` first COPIES the whole file to DIR, '
+              'fails to remove the source, deletes the copy again and leaves the directories it created under DIR behind' % ', '.join(sorted(variants - unlink_tested)))
     ctx.check('HardLink' in covered, rule, cp.path + '|HardLink|link-refusals-predicted', cp.where(), 'check_preconditions tests what makes link(2) refuse a hard link',
               'check_preconditions has no test for HardLink commands: when link(2) refuses - the retained file has reached the link limit of the file system (EMLINK; ext4: 65000), the paths are on two '
               'bind mounts of one device (EXDEV although st_dev is equal), or fs.protected_hardlinks forbids linking a foreign file (EPERM) - the dry run announces and counts the file, the real run '
